@@ -170,8 +170,7 @@ func c17EvalFault(c *Ctx, raw []byte) {
 	}
 	c.Dist("fault-mode:" + cs.Mode)
 	c.Dist("fault-via:" + cs.Via)
-	dir := filepath.Join(c17WorkDir(c), "fault")
-	_ = os.MkdirAll(dir, 0o755)
+	dir := c17WorkDir(c)
 	defer os.RemoveAll(dir)
 	file := filepath.Join(dir, "f.yaml")
 	_ = os.Remove(file)
